@@ -102,6 +102,7 @@ def gen_c06(tier, rng):
         # the Ticker interface promises nothing about sign or origin: streams also start below zero and cross it
         s.append(conc.Scn("a%d" % i, "breaker", tick_stream(rng, 4 * n + 8, start=rng.choice([0, 0, 0, -3, -10, -17, -25, -40, -(1 << 62) - 100, -(1 << 63) + 5])), [ops], "dfs 0 1", rand_cfg(rng)))
     s += gen_trip_boundary(tier, rng, scale(tier, 160, 0))
+    s += gen_big_counts(tier)
     # bounded-exhaustive: EVERY call sequence up to the bound, under a few configurations and ticker styles
     import itertools
     n = 0
@@ -217,8 +218,22 @@ def gen_long_window(tier):
         out.append(conc.Scn("lw%d" % n, "window", ticks, [ops], "dfs 0 1", cfg_opts(window=window, interval=1, maxsteps=400000000, nomodel=1)))
     return out
 
+def gen_big_counts(tier):
+    """windows holding 2^31 and more events of one kind (four buckets of 2^29 .. 2^33 each, put there at once through the
+    buckets' own adders): the totals are 64-bit; judged by the reference window of the driver"""
+    out = []
+    for k, n in enumerate([1 << 29, 1 << 30, (1 << 31) + 7, 1 << 33]):
+        ops, ticks = [], [0]
+        for j in range(4):
+            ops += ["wP%d" % n, "ws"]
+            ticks.append(5 * (j + 1))
+        ops += ["wf", "wc"]
+        ticks += [26, 27]
+        out.append(conc.Scn("bc%d" % k, "window", ticks, [ops], "dfs 0 1", cfg_opts(window=1000, interval=5, nomodel=1)))
+    return out
+
 def gen_c10(tier, rng):
-    s = gen_long_window(tier)
+    s = gen_long_window(tier) + gen_big_counts(tier)
     for i in range(scale(tier, 300, 5000)):   # sequential window scripts vs the reference window
         n = rng.choice([6, 12, 24])
         ops = rng.choices(["ws", "wf", "wc"], weights=(3, 3, 1), k=n)
